@@ -12,7 +12,7 @@ func vListInv(llb *Buffer) bool {
 	for it := llb.head; it != nil; it = it.next {
 		cnt++
 		sum += len(it.buf)
-		ok = ok && len(it.buf) > 0
+		ok = ok && len(it.buf) > 0 && !vReleased(it.buf) // a queued segment is owned by the list, not by the pool
 		last = it
 		if cnt > 16 {
 			return false
